@@ -18,6 +18,9 @@ class ShardPages(interpose.Listener):
     holder = None
     holder_shard = -1
     holder_fails = 0
+    arm_after = 0          # take the lock after that many COMMITs on the shard (between two pages of a bulk removal)
+    arm_fails = 0
+    arm_times = 0
 
     def hold(self, shard, fails):
         self.holder = interpose.real_connect(os.path.join(self.root, '%03d' % shard, 'cache.db'), timeout=0, isolation_level=None)
@@ -30,7 +33,18 @@ class ShardPages(interpose.Listener):
             self.holder.close()
             self.holder = None
 
+    def arm(self, shard, fails, after, times):
+        self.holder_shard, self.arm_fails, self.arm_after, self.arm_times, self.commits = shard, fails, after, times, 0
+
     def sql_after(self, conn, sql, params, rows, error):
+        if self.arm_times > 0 and self.holder is None and error is None and sql.lstrip().upper().startswith('COMMIT'):
+            path = getattr(conn, '_verif_path', '') or ''
+            if os.path.basename(os.path.dirname(path)) == '%03d' % self.holder_shard:
+                self.commits += 1
+                if self.commits >= self.arm_after:
+                    self.commits = 0
+                    self.arm_times -= 1
+                    self.hold(self.holder_shard, self.arm_fails)
         if error is not None and self.holder is not None and sql.lstrip().upper().startswith('BEGIN'):
             path = getattr(conn, '_verif_path', '') or ''
             if os.path.basename(os.path.dirname(path)) == '%03d' % self.holder_shard:
@@ -114,7 +128,9 @@ class FanoutRunner:
         self.listener.pages = []
         now = self.clock.tick
         busy = a.pop('busy', None)
-        if busy:
+        if busy and len(busy) > 2:
+            self.listener.arm(busy[0] % self.n, busy[1], busy[2], busy[3])
+        elif busy:
             self.listener.hold(busy[0] % self.n, busy[1])
         try:
             if name in ('pickle', 'reopen', 'copy'):
@@ -135,6 +151,7 @@ class FanoutRunner:
             else:
                 ret = self.api.call(self.cache, name, a, form)
         finally:
+            self.listener.arm_times = 0
             self.listener.release()
         rows, ctr, pbe = self.project()
         self.events.append({'op': name, 'a': a, 'now': now, 'pb': list(self.listener.pages), 'pbe': pbe,
